@@ -1,7 +1,11 @@
 //! C11: plug / append / adjoint / basis plugging / is_identity of graph.rs recorded on pairs
 //! of diagrams; TLC (mc/Trace_Compose) decides the linear-algebra statements with Den.
+//! Also (API-coverage gaps #2, #20): copy(adjoint), subgraph_from_vertices on unions of components,
+//! plug_vertex called directly, BasisElem::flipped / is_x / is_z / phase; and, with `--sf` / a `--rand` /
+//! `--fam` configuration with variables, all of it on diagrams whose spiders carry boolean variables and
+//! whose scalar has conditional factors (C10: judged under EVERY assignment, DenV).
 
-use crate::absg::{abs, build, canon};
+use crate::absg::{abs, build, canon, phase_json};
 use crate::util::{guarded, Tr};
 use quizx::graph::*;
 use rand::rngs::StdRng;
@@ -117,6 +121,22 @@ fn run<G: GraphLike + PartialEq>(ga: &Value, ha: &Value, be: &str, r: &mut StdRn
             x.plug_output(i, basis(b));
             x
         }));
+        // plug_vertex called directly: no normalisation, the list is left alone (the harness takes the vertex off it)
+        let b = BS[r.random_range(0..4)];
+        out.push(ev("plugv", be, json!({"side": "out", "i": i, "b": b}), || {
+            let mut x = g.clone();
+            x.plug_vertex(x.outputs()[i], basis(b));
+            x.outputs_mut().remove(i);
+            x
+        }));
+        // the flipped basis elements of a random list
+        let l: Vec<&'static str> = (0..r.random_range(1..=g.outputs().len().min(3))).map(|_| BS[r.random_range(0..5)]).collect();
+        let bl: Vec<BasisElem> = l.iter().map(|s| basis(s).flipped()).collect();
+        out.push(ev("plugout_f", be, json!({"list": l}), || {
+            let mut x = g.clone();
+            x.plug_outputs(&bl);
+            x
+        }));
     }
     if !g.inputs().is_empty() {
         let i = r.random_range(0..g.inputs().len());
@@ -126,13 +146,141 @@ fn run<G: GraphLike + PartialEq>(ga: &Value, ha: &Value, be: &str, r: &mut StdRn
             x.plug_input(i, basis(b));
             x
         }));
+        let b = BS[r.random_range(0..4)];
+        out.push(ev("plugv", be, json!({"side": "in", "i": i, "b": b}), || {
+            let mut x = g.clone();
+            x.plug_vertex(x.inputs()[i], basis(b));
+            x.inputs_mut().remove(i);
+            x
+        }));
+        let l: Vec<&'static str> = (0..r.random_range(1..=g.inputs().len().min(3))).map(|_| BS[r.random_range(0..5)]).collect();
+        let bl: Vec<BasisElem> = l.iter().map(|s| basis(s).flipped()).collect();
+        out.push(ev("plugin_f", be, json!({"list": l}), || {
+            let mut x = g.clone();
+            x.plug_inputs(&bl);
+            x
+        }));
     }
+    // copy(adjoint): vertex identity through the row coordinate (the copy renumbers); `map` = [old name, new name]
+    let mut tagged = g.clone();
+    for v in tagged.vertex_vec() {
+        tagged.set_row(v, v as f64);
+    }
+    let name_map = |c: &G| -> Vec<(usize, usize)> {
+        let mut m: Vec<(usize, usize)> = c.vertices().map(|w| (c.row(w) as usize, w)).collect();
+        m.sort();
+        m
+    };
+    for adj in [false, true] {
+        out.push(match guarded(|| tagged.copy(adj)) {
+            Ok(c) => json!({"k": "copy", "be": be, "res": "ok", "adj": adj, "post": abs(&c), "map": name_map(&c)}),
+            Err(m) => json!({"k": "copy", "be": be, "res": "panic", "adj": adj, "msg": m}),
+        });
+    }
+    // subgraph_from_vertices on a union S of connected components (as component_vertices reports them) and on the
+    // complement; the harness restricts the boundary lists to each part
+    let sub = guarded(|| {
+        let comps = tagged.component_vertices();
+        let mut s: Vec<usize> = vec![];
+        for c in comps.iter() {
+            let mut c: Vec<usize> = c.iter().copied().collect();
+            c.sort();
+            // membership decided by the component's least vertex so that both backends choose alike
+            if (c[0] + comps.len()) % 2 == 0 || comps.len() == 1 {
+                s.extend(c);
+            }
+        }
+        s.sort();
+        s.reverse();
+        let mut rest: Vec<usize> = tagged.vertices().filter(|v| !s.contains(v)).collect();
+        rest.sort();
+        let part = |verts: &Vec<usize>| -> (Value, Vec<(usize, usize)>) {
+            let mut p = tagged.subgraph_from_vertices(verts.clone());
+            let m = name_map(&p);
+            let to = |v: &usize| m.iter().find(|(o, _)| o == v).map(|(_, n)| *n);
+            p.set_inputs(g.inputs().iter().filter_map(to).collect());
+            p.set_outputs(g.outputs().iter().filter_map(to).collect());
+            (abs(&p), m)
+        };
+        let (ps, ms) = part(&s);
+        let (pr, _) = part(&rest);
+        let mut ss = s.clone();
+        ss.sort();
+        json!({"k": "subg", "be": be, "res": "ok", "S": ss, "post": ps, "map": ms, "rest": pr})
+    });
+    out.push(match sub {
+        Ok(e) => e,
+        Err(m) => json!({"k": "subg", "be": be, "res": "panic", "msg": m}),
+    });
     out
+}
+
+/// every variable occurring in a diagram (spiders and conditions)
+fn vars_of(a: &Value, acc: &mut Vec<u64>) {
+    let mut add = |x: &Value| {
+        for v in x.as_array().unwrap() {
+            let v = v.as_u64().unwrap();
+            if !acc.contains(&v) {
+                acc.push(v);
+            }
+        }
+    };
+    for v in a["v"].as_array().unwrap() {
+        add(&v["vars"]);
+    }
+    for f in a["sf"].as_array().unwrap() {
+        for p in f["cond"].as_array().unwrap() {
+            add(&p[0]);
+        }
+    }
+}
+
+/// `--sf`: give a diagram 0..2 conditional scalar factors over the variables `vars` (distinct linear / quadratic
+/// conditions; values include non-real and non-unit elements, as local complementation and pi-copy produce them)
+pub fn decorate_sf(a: &mut Value, r: &mut StdRng, vars: &[u32]) {
+    let vals: [[i64; 5]; 6] = [[-1, 0, 0, 0, 0], [0, 1, 0, 0, 0], [0, 0, 1, 0, 0], [1, 1, 0, 0, 0], [1, 0, 1, 0, -1], [0, 1, 0, -1, 0]];
+    let par = |r: &mut StdRng| -> Value {
+        let mut vs: Vec<u32> = vars.iter().copied().filter(|_| r.random_bool(0.5)).collect();
+        if vs.is_empty() {
+            vs.push(vars[r.random_range(0..vars.len())]);
+        }
+        json!([vs, r.random_bool(0.25)])
+    };
+    let mut sf: Vec<Value> = vec![];
+    for _ in 0..r.random_range(0..3) {
+        let cond = if r.random_bool(0.7) { json!([par(r)]) } else { json!([par(r), par(r)]) };
+        sf.push(json!({"cond": cond, "sc": vals[r.random_range(0..vals.len())]}));
+    }
+    a["sf"] = json!(sf);
 }
 
 pub fn record_pair(ga: &Value, ha: &Value, tr: &mut Tr, seed: u64) {
     tr.group();
-    tr.emit(json!({"k": "pair", "g": ga, "h": ha}));
+    let has_sf = |a: &Value| !a["sf"].as_array().unwrap().is_empty();
+    // diagrams with conditional factors are logged as the built graph holds them (Expr::quadratic normalises, equal conditions multiply)
+    let (ga, ha) = (
+        &if has_sf(ga) { abs(&build::<quizx::vec_graph::Graph>(ga)) } else { ga.clone() },
+        &if has_sf(ha) { abs(&build::<quizx::vec_graph::Graph>(ha)) } else { ha.clone() },
+    );
+    let mut vs: Vec<u64> = vec![];
+    vars_of(ga, &mut vs);
+    vars_of(ha, &mut vs);
+    vs.sort();
+    if vs.is_empty() {
+        tr.emit(json!({"k": "pair", "g": ga, "h": ha}));
+    } else {
+        tr.emit(json!({"k": "pair", "g": ga, "h": ha, "vs": vs}));
+    }
+    // BasisElem: flipped / is_x / is_z / phase of every element
+    let bas: Vec<Value> = BS
+        .iter()
+        .map(|s| {
+            let b = basis(s);
+            let f = BS.iter().find(|t| basis(t) == b.flipped()).unwrap();
+            json!({"b": s, "flipped": f, "is_x": b.is_x(), "is_z": b.is_z(), "ph": phase_json(b.phase().into())})
+        })
+        .collect();
+    tr.emit(json!({"k": "basis", "elems": bas}));
     let mut r1 = crate::gens::rng(seed);
     let mut r2 = crate::gens::rng(seed);
     let ev = run::<quizx::vec_graph::Graph>(ga, ha, "vec", &mut r1);
@@ -152,13 +300,28 @@ pub fn record_pair(ga: &Value, ha: &Value, tr: &mut Tr, seed: u64) {
             }
             a == b
         };
+        // call-site tags for known_findings.json (conditional factors in the operand that the operation has to carry along)
+        let k = x["k"].as_str().unwrap_or("").to_string();
+        let tag = if (k == "plug" || k == "append") && has_sf(ha) {
+            Some("sf_in_other")
+        } else if (k == "adjoint" || k == "copy") && has_sf(ga) {
+            Some("sf_in_self")
+        } else {
+            None
+        };
+        let mut emit = |mut e: Value| {
+            if let Some(t) = tag {
+                e["tags"] = json!([t]);
+            }
+            tr.emit(e);
+        };
         if same {
             let mut e = x;
             e["be"] = json!("both");
-            tr.emit(e);
+            emit(e);
         } else {
-            tr.emit(x);
-            tr.emit(y);
+            emit(x);
+            emit(y);
         }
     }
 }
